@@ -171,25 +171,55 @@ pub struct Decision {
     pub satisfied: usize,
 }
 
+/// what the reference matcher looks at
+#[derive(Clone, Debug)]
+pub struct MView {
+    pub ecu: [u8; 4],
+    pub ext: Option<(u8, [u8; 4], [u8; 4])>, // vmm, apid, ctid
+    pub lifecycle: u32,
+    pub text: String,
+}
+impl MView {
+    pub fn of(m: &DltMessage) -> MView {
+        MView {
+            ecu: *m.ecu.as_buf(),
+            ext: m.extended_header.as_ref().map(|e| (e.verb_mstp_mtin, *e.apid.as_buf(), *e.ctid.as_buf())),
+            lifecycle: m.lifecycle,
+            text: m.payload_as_text().map(|t| t.into_owned()).unwrap_or_default(),
+        }
+    }
+}
+
 pub fn reference_matches(f: &AF, m: &FMsg) -> Decision {
+    let v = MView {
+        ecu: m.ecu_bytes(),
+        ext: m.ext.map(|(_, a, c)| (m.vmm().unwrap(), *ID_UNIVERSE[a as usize % ID_UNIVERSE.len()], *ID_UNIVERSE[c as usize % ID_UNIVERSE.len()])),
+        lifecycle: m.lifecycle,
+        text: m.text().to_string(),
+    };
+    reference_matches_view(f, &v)
+}
+
+pub fn reference_matches_view(f: &AF, m: &MView) -> Decision {
     let mut crit = vec![];
     if let Some(c) = &f.ecu {
-        crit.push(c.holds(&m.ecu_bytes()));
+        crit.push(c.holds(&m.ecu));
     }
     if let Some(c) = &f.apid {
-        crit.push(match m.ext {
-            Some((_, a, _)) => c.holds(ID_UNIVERSE[a as usize % ID_UNIVERSE.len()]),
+        crit.push(match &m.ext {
+            Some((_, a, _)) => c.holds(a),
             None => false,
         });
     }
     if let Some(c) = &f.ctid {
-        crit.push(match m.ext {
-            Some((_, _, ci)) => c.holds(ID_UNIVERSE[ci as usize % ID_UNIVERSE.len()]),
+        crit.push(match &m.ext {
+            Some((_, _, ci)) => c.holds(ci),
             None => false,
         });
     }
+    let vmm = m.ext.as_ref().map(|e| e.0);
     if let Some(t) = &f.mtype {
-        crit.push(match m.vmm() {
+        crit.push(match vmm {
             None => false,
             Some(vmm) => match t {
                 MType::Mstp(ms) => (vmm >> 1) & 7 == *ms & 7,
@@ -204,19 +234,19 @@ pub fn reference_matches(f: &AF, m: &FMsg) -> Decision {
         });
     }
     if let Some(l) = f.level_min {
-        crit.push(match m.vmm() {
+        crit.push(match vmm {
             None => false,
             Some(vmm) => (vmm >> 1) & 7 == 0 && (vmm >> 4) >= l,
         });
     }
     if let Some(l) = f.level_max {
-        crit.push(match m.vmm() {
+        crit.push(match vmm {
             None => false,
             Some(vmm) => (vmm >> 1) & 7 == 0 && (vmm >> 4) <= l,
         });
     }
     if let Some(p) = &f.payload {
-        let text = m.text();
+        let text = m.text.as_str();
         crit.push(match p {
             PayCrit::Lit(s) => {
                 if f.ignore_case {
